@@ -154,6 +154,17 @@ func (e *Env) term(x *Sx) string {
 			e.errf("byteat of a non-scalar slice")
 		}
 		return fmt.Sprintf("(select %s %s)", c.Leaves[0], addTerm(sl.Off, e.term(x.List[2])))
+	case "sameslice":
+		// (sameslice A B): A and B are the same window of the same backing array (slice identity)
+		a, oka := e.val(x.List[1]).(Slice)
+		b, okb := e.val(x.List[2]).(Slice)
+		if !oka || !okb {
+			e.errf("sameslice of non-slices")
+		}
+		if a.Arr != b.Arr {
+			return "false"
+		}
+		return and(eq(a.Off, b.Off), eq(a.Len, b.Len))
 	case "nosharing":
 		// (nosharing A B): no backing array reachable from value A is reachable from value B
 		// (decided structurally: backing arrays have identities in the engine). Abstract values share nothing.
